@@ -173,6 +173,7 @@ namespace c10
         std::vector<char> member(N, 0);
         int next = 0;
         long pivotRemovals = 0, cacheFlush = 0;
+        std::vector<int> stale;  // the previous query's answer (result vectors are reused by callers)
         const long violBefore = sink.violTotal();
         for (int op = 0; op < P.nops; ++op)
         {
@@ -288,8 +289,11 @@ namespace c10
                     else if (kk == 2) k = model.size() + 5;
                     else if (kk == 3) k = rng.ui(model.size() + 1);
                     else k = 1 + rng.ui(12);
+                    // callers reuse their result vectors: half of the queries hand in one that still holds an earlier answer
                     std::vector<int> out;
+                    if (rng.coin()) out = stale, sink.count("c10_queries_into_reused_vector");
                     nn.nearestK(qi, k, out);
+                    stale = out;
                     std::set<int> uniq(out.begin(), out.end());
                     std::string bad;
                     if (out.size() != std::min(k, model.size())) bad = "count";
@@ -312,7 +316,9 @@ namespace c10
                     else if (rk == 2) rad = 1e9;
                     else rad = bf.empty() ? 1.0 : bf[rng.ui(bf.size())];  // exactly at an element's distance: ties at the radius
                     std::vector<int> out;
+                    if (rng.coin()) out = stale, sink.count("c10_queries_into_reused_vector");
                     nn.nearestR(qi, rad, out);
+                    stale = out;
                     size_t lo = std::upper_bound(bf.begin(), bf.end(), rad * (1 - band)) - bf.begin();
                     if (!ctx.exact) lo = std::lower_bound(bf.begin(), bf.end(), rad * (1 - band)) - bf.begin();
                     size_t hi = std::upper_bound(bf.begin(), bf.end(), rad * (1 + band)) - bf.begin();
@@ -335,6 +341,7 @@ namespace c10
             if (op % 16 == 0 || op + 1 == P.nops)
             {
                 std::vector<int> lst;
+                if (rng.coin()) lst = stale;
                 nn.list(lst);
                 std::vector<int> a(lst), b(model);
                 std::sort(a.begin(), a.end());
